@@ -133,6 +133,33 @@ def dyn_block(bw, rng, toks, final, maxdepth=15, rle="mixed", fault=None, single
         ud = list(used_d)
         if len(ud) == 1: ud = sorted(set(ud + [(ud[0] + 1) % 30]))
         for s, l in zip(ud, random_complete_lengths(rng, len(ud), min(15, max(5, maxdepth)), skew=0.5)): d_len[s] = l
+    undefined = None
+    if fault == "use_undefined_dist":
+        # a deep, complete distance code whose longest codes belong to symbols the data does not use
+        extra = [x for x in range(30) if x not in used_d]; rng.shuffle(extra)
+        ud = list(used_d) + extra[:max(2, 14 - len(used_d))]
+        ls = sorted(random_complete_lengths(rng, len(ud), 15, skew=0.9))
+        d_len = [0] * 30
+        for sym, l in zip(list(used_d) + [x for x in ud if x not in used_d], ls): d_len[sym] = l
+    if fault == "use_undefined_ll":
+        real = set([256] + [t[1] for t in toks if t[0] == "lit"] + [257 + len_sym(t[1]) for t in toks if t[0] == "match"])
+        order = [x for x in used_ll if x in real] + [x for x in used_ll if x not in real]
+        ls = sorted(random_complete_lengths(rng, len(order), 15, skew=0.9))
+        ll_len = [0] * 286
+        for sym, l in zip(order, ls): ll_len[sym] = l
+    if fault in ("use_undefined_dist", "use_undefined_ll"):
+        # make the code set INCOMPLETE by dropping the last canonical code of maximal length (no other code changes), then use
+        # exactly that unassigned code in the data: the stream is undecodable whatever a decoder thinks of incomplete sets
+        lens_, base = (d_len, 0) if fault == "use_undefined_dist" else (ll_len, 0)
+        mx = max(lens_)
+        cand = [i for i in range(len(lens_)) if lens_[i] == mx and (fault == "use_undefined_dist" or i != 256)]
+        used_syms = set(dist_sym(t[2]) for t in toks if t[0] == "match") if fault == "use_undefined_dist" else \
+                    set([t[1] for t in toks if t[0] == "lit"] + [257 + len_sym(t[1]) for t in toks if t[0] == "match"])
+        free = [i for i in cand if i not in used_syms]
+        if free and mx >= 2:
+            codes_full = canon(lens_)
+            undefined = (max(codes_full[i] for i in cand), mx)      # dropping any code of maximal length leaves the last (all-ones) code unassigned
+            lens_[free[-1]] = 0
     if fault == "oversubscribed_ll":
         s = rng.choice([x for x in used_ll]); ll_len[s] = max(1, ll_len[s] - 1)
     if fault == "no_eob": ll_len[256] = 0
@@ -165,7 +192,25 @@ def dyn_block(bw, rng, toks, final, maxdepth=15, rle="mixed", fault=None, single
         for t in toks[:3]:
             if t[0] == "lit": bw.code(ll_code[t[1]], ll_len[t[1]])
         return
+    if undefined and fault == "use_undefined_dist":
+        emit_tokens_no_eob(bw, toks, ll_len, ll_code, d_len, d_code)
+        s_ = len_sym(5); bw.code(ll_code[257 + s_], ll_len[257 + s_]); bw.bits(5 - LEN_BASE[s_], LEN_EXTRA[s_]) if ll_len[257 + s_] else None
+        bw.code(undefined[0], undefined[1]); bw.bits(0, 13)
+        bw.code(ll_code[256], ll_len[256]); return
+    if undefined and fault == "use_undefined_ll":
+        emit_tokens_no_eob(bw, toks, ll_len, ll_code, d_len, d_code)
+        bw.code(undefined[0], undefined[1]); bw.bits(0, 13)
+        bw.code(ll_code[256], ll_len[256]); return
     emit_tokens(bw, toks, ll_len, ll_code, d_len, d_code)
+
+def emit_tokens_no_eob(bw, toks, ll_len, ll_code, d_len, d_code):
+    for t in toks:
+        if t[0] == "lit":
+            bw.code(ll_code[t[1]], ll_len[t[1]])
+        else:
+            _, ln, d = t
+            s = len_sym(ln); bw.code(ll_code[257 + s], ll_len[257 + s]); bw.bits(ln - LEN_BASE[s], LEN_EXTRA[s])
+            ds = dist_sym(d); bw.code(d_code[ds], d_len[ds]); bw.bits(d - DIST_BASE[ds], DIST_EXTRA[ds])
 
 FIXED_LL = [8] * 144 + [9] * 112 + [7] * 24 + [8] * 8
 FIXED_D = [5] * 32
@@ -218,6 +263,30 @@ def make_stream(rng, plan, fault=None, fault_block=None):
             dyn_block(bw, rng, toks, final, maxdepth=depth, rle=rng.choice(["mixed", "plain", "short", "mixed"]), fault=f, single_dist=(kind == "litonly"))
             if f == "dist_too_far":
                 pass
+    return bw.done()
+
+def aligned_fixed_stream(rng, k8=5):
+    """one final fixed block whose end-of-block code ends exactly on a byte boundary: 3 + 8*k8 + 9*6 + 7 bits"""
+    bw = BitWriter()
+    toks = [("lit", rng.randrange(0, 144)) for _ in range(k8)] + [("lit", rng.randrange(144, 256)) for _ in range(6)]
+    rng.shuffle(toks)
+    fixed_block(bw, toks, True)
+    assert bw.n == 0
+    return bw.done()
+
+def maxlen_stream(rng, reps=8):
+    """non-final dynamic block with very few symbols (short codes, so the decoder packs several symbols per lookup) made of
+    literal, literal, maximal-length match (257 / 258, distance >= 16), followed by an empty final stored block"""
+    bw = BitWriter()
+    a, b = rng.randrange(256), rng.randrange(256)
+    toks = [("lit", a if i % 3 else b) for i in range(24)]
+    total = 24
+    for i in range(reps):
+        toks += [("lit", a), ("lit", b), ("match", [257, 258, 257, 256][i % 4], rng.choice([16, 17, 20, 24]))]
+        total += 2 + toks[-1][1]
+        if i % 3 == 2: toks += [("lit", a)]; total += 1
+    dyn_block(bw, rng, toks, False, maxdepth=4 if rng.random() < 0.7 else 7, rle="mixed")
+    stored_block(bw, [], True)
     return bw.done()
 
 def too_far_stream(rng):
